@@ -7,7 +7,10 @@
 #define SAME(a, b) ((a) == (b) || (__CPROVER_isnand(a) && __CPROVER_isnand(b)))   /* unchanged, NaN-safe */
 extern int ghost_k;                         /* ghost index: "for every entry k of pi" */
 
-#define WF_VEC(v, len)  ((v)->n == (len) && __CPROVER_is_fresh((v)->d, sizeof(Real) * (unsigned long)(len)))
+/* SimTK::Vector seen as its contiguous data pointer; g_m is the (ghost) common length m of pi, rhs, D, piExpand */
+extern int g_m;
+#define WF_VEC(v)       (__CPROVER_is_fresh((v), sizeof(Real) * (unsigned long)g_m))
+#define WF_M            (0 < g_m && g_m <= VEC_MAX)
 /* all IDX_CAP storage slots hold in-range indices (slots >= n are unused model storage; this keeps
    the contract expressions below free of out-of-range reads) */
 #define INR(a, j, m)    (0 <= (a)->d[j] && (a)->d[j] < (m))
@@ -20,29 +23,38 @@ extern int ghost_k;                         /* ghost index: "for every entry k o
 /* disjoint index sets (both of size <= 3) */
 #define DISJ(a, b)      (!IN_IDX(a, (b)->d[0]) || (b)->n < 1) && (!IN_IDX(a, (b)->d[1]) || (b)->n < 2) && (!IN_IDX(a, (b)->d[2]) || (b)->n < 3)
 
+/* The scalar contracts are written as predicates over (return value, old value, new value) so that the
+   sweep unit can use the very same text as call-site assertion (PRE) and assumption (POST). */
 /* ---- boundUnilateral: "unilateral normal impulses never pull" ------------------------------ */
+#define BU_PRE(sign, o)        (((sign) == 1 || (sign) == -1) && NOTNAN(o))
+#define NOPULL_V(sign, x)      (((sign) == 1 ==> (x) <= 0) && ((sign) == -1 ==> (x) >= 0))      /* sign*x <= 0 for sign = +-1, product-free */
+#define BU_POST(r, sign, o, n) (NOPULL_V(sign, n)                                        /* never pulls */ \
+  && ((n) == (o) || (n) == 0)                                                            /* pi' in {pi, 0} */ \
+  && ((r) == UniOff || (r) == UniActive) \
+  && (((r) == UniOff) == ((n) != (o)))                                                   /* UniOff <=> changed */ \
+  && ((r) == UniOff ==> (n) == 0)                                                        /* condition consistent */ \
+  && (((r) == UniActive) == NOPULL_V(sign, o)))
 enum UniCond boundUnilateral(Real sign, Real* pi)
 __CPROVER_requires(__CPROVER_is_fresh(pi, sizeof(Real)))
-__CPROVER_requires((sign == 1 || sign == -1) && NOTNAN(*pi))
+__CPROVER_requires(BU_PRE(sign, *pi))
 __CPROVER_assigns(*pi)
-__CPROVER_ensures(sign * (*pi) <= 0)                                              /* never pulls */
-__CPROVER_ensures((sign == 1 ==> *pi <= 0) && (sign == -1 ==> *pi >= 0))
-__CPROVER_ensures(*pi == __CPROVER_old(*pi) || *pi == 0)                          /* pi' in {pi, 0} */
-__CPROVER_ensures(__CPROVER_return_value == UniOff || __CPROVER_return_value == UniActive)
-__CPROVER_ensures((__CPROVER_return_value == UniOff) == (*pi != __CPROVER_old(*pi)))   /* UniOff <=> changed */
-__CPROVER_ensures(__CPROVER_return_value == UniOff ==> *pi == 0)                  /* condition consistent */
+__CPROVER_ensures(BU_POST(__CPROVER_return_value, sign, __CPROVER_old(*pi), *pi))
+/* the same two clauses with the product as the property states it */
+__CPROVER_ensures(sign * (*pi) <= 0)
 __CPROVER_ensures((__CPROVER_return_value == UniActive) == (sign * __CPROVER_old(*pi) <= 0))
 ;
 
 /* ---- boundScalar: "bounded impulses stay within bounds", nearest bound ---------------------- */
+#define BS_PRE(lb, o, ub)        ((lb) <= (ub) && NOTNAN(o))
+#define BS_POST(r, lb, o, n, ub) ((lb) <= (n) && (n) <= (ub) \
+  && (((lb) <= (o) && (o) <= (ub)) ==> ((n) == (o) && (r) == Engaged)) \
+  && ((o) > (ub) ==> ((n) == (ub) && (r) == SlipHigh)) \
+  && ((o) < (lb) ==> ((n) == (lb) && (r) == SlipLow)))
 enum BndCond boundScalar(Real lb, Real* pi, Real ub)
 __CPROVER_requires(__CPROVER_is_fresh(pi, sizeof(Real)))
-__CPROVER_requires(lb <= ub && NOTNAN(*pi))
+__CPROVER_requires(BS_PRE(lb, *pi, ub))
 __CPROVER_assigns(*pi)
-__CPROVER_ensures(lb <= *pi && *pi <= ub)
-__CPROVER_ensures((lb <= __CPROVER_old(*pi) && __CPROVER_old(*pi) <= ub) ==> (*pi == __CPROVER_old(*pi) && __CPROVER_return_value == Engaged))
-__CPROVER_ensures(__CPROVER_old(*pi) > ub ==> (*pi == ub && __CPROVER_return_value == SlipHigh))
-__CPROVER_ensures(__CPROVER_old(*pi) < lb ==> (*pi == lb && __CPROVER_return_value == SlipLow))
+__CPROVER_ensures(BS_POST(__CPROVER_return_value, lb, __CPROVER_old(*pi), *pi, ub))
 ;
 
 /* ---- boundVector / boundFriction ------------------------------------------------------------
@@ -54,78 +66,70 @@ __CPROVER_ensures(__CPROVER_old(*pi) < lb ==> (*pi == lb && __CPROVER_return_val
    kept, no component grows or changes sign); the zero vector is never scaled.
    The value-level clauses "Rolling <=> sum of squares <= L2" are decided on a small integer domain in
    the bounded stand-in units (EXACT_SQ), the cone inequality after scaling over the reals by z3.   */
-#define P_OLD(a, j)   __CPROVER_old(pi->d[(a)->d[j]])
-#define P_NEW(a, j)   (pi->d[(a)->d[j]])
+#define P_OLD(a, j)   __CPROVER_old(pi[(a)->d[j]])
+#define P_NEW(a, j)   (pi[(a)->d[j]])
 #define LOG_CLEAR     (g_ratio_n == 0 && g_sc_n == 0)
 #define SCALED(a, j)  ((a)->n <= (j) || (same_bits(g_sc_x[j], P_OLD(a,j)) && same_bits(g_sc_s[j], g_ratio_res) && same_bits(P_NEW(a,j), g_sc_r[j])))
 #define KEPT(a, j)    ((a)->n <= (j) || same_bits(P_NEW(a,j), P_OLD(a,j)))
 #define LOG_ASSIGNS   g_ratio_n, g_ratio_res, g_sc_n, __CPROVER_object_whole(g_sc_x), __CPROVER_object_whole(g_sc_s), __CPROVER_object_whole(g_sc_r)
-#define ENTRIES_OK(a) (((a)->n < 1 || FINITE(pi->d[(a)->d[0]])) && ((a)->n < 2 || FINITE(pi->d[(a)->d[1]])) && ((a)->n < 3 || FINITE(pi->d[(a)->d[2]])))
-#define ENTRY_BIG(a,j) ((a)->n <= (j) || (-BIG <= pi->d[(a)->d[j]] && pi->d[(a)->d[j]] <= BIG))
+#define ENTRIES_OK(a) (((a)->n < 1 || FINITE(pi[(a)->d[0]])) && ((a)->n < 2 || FINITE(pi[(a)->d[1]])) && ((a)->n < 3 || FINITE(pi[(a)->d[2]])))
+#define SLOT_BIG(a, j)      ((a)->n <= (j) || (-BIG <= pi[(a)->d[j]] && pi[(a)->d[j]] <= BIG))
+#define ENTRY_BIG(a,j) ((a)->n <= (j) || (-BIG <= pi[(a)->d[j]] && pi[(a)->d[j]] <= BIG))
 #define CONE_POST(a) \
 __CPROVER_ensures(__CPROVER_return_value == Rolling || __CPROVER_return_value == Sliding) \
-__CPROVER_ensures(__CPROVER_return_value == Rolling ==> (g_ratio_n == 0 && g_sc_n == 0 && KEPT(a,0) && KEPT(a,1) && KEPT(a,2))) \
-__CPROVER_ensures(__CPROVER_return_value == Sliding ==> (g_ratio_n == 1 && g_sc_n == (int)(a)->n && 0.0 <= g_ratio_res && g_ratio_res <= 1.0 && SCALED(a,0) && SCALED(a,1) && SCALED(a,2))) \
-__CPROVER_ensures(!IN_IDX(a, ghost_k) ==> SAME(pi->d[ghost_k], __CPROVER_old(pi->d[ghost_k]))) \
-__CPROVER_ensures(__CPROVER_old(pi->d[ghost_k]) >= 0 ==> (0 <= pi->d[ghost_k] && pi->d[ghost_k] <= __CPROVER_old(pi->d[ghost_k]))) \
-__CPROVER_ensures(__CPROVER_old(pi->d[ghost_k]) <= 0 ==> (0 >= pi->d[ghost_k] && pi->d[ghost_k] >= __CPROVER_old(pi->d[ghost_k]))) \
+__CPROVER_ensures(__CPROVER_return_value == Rolling ==> (KEPT(a,0) && KEPT(a,1) && KEPT(a,2))) \
+__CPROVER_ensures(!IN_IDX(a, ghost_k) ==> SAME(pi[ghost_k], __CPROVER_old(pi[ghost_k]))) \
+__CPROVER_ensures(__CPROVER_old(pi[ghost_k]) >= 0 ==> (0 <= pi[ghost_k] && pi[ghost_k] <= __CPROVER_old(pi[ghost_k]))) \
+__CPROVER_ensures(__CPROVER_old(pi[ghost_k]) <= 0 ==> (0 >= pi[ghost_k] && pi[ghost_k] >= __CPROVER_old(pi[ghost_k]))) \
 __CPROVER_ensures((P_OLD(a,0) == 0 || (a)->n < 1) && (P_OLD(a,1) == 0 || (a)->n < 2) && (P_OLD(a,2) == 0 || (a)->n < 3) ==> __CPROVER_return_value == Rolling)
+/* operation-log clauses: only in the unit where the contract is ENFORCED against the body */
+#define CONE_LOG_POST(a) \
+__CPROVER_ensures(__CPROVER_return_value == Rolling ==> (g_ratio_n == 0 && g_sc_n == 0)) \
+__CPROVER_ensures(__CPROVER_return_value == Sliding ==> (g_ratio_n == 1 && g_sc_n == (int)(a)->n && 0.0 <= g_ratio_res && g_ratio_res <= 1.0 && SCALED(a,0) && SCALED(a,1) && SCALED(a,2)))
 
-#ifdef SWEEP_GHOST
-/* ghost record used only where the contract is an ASSUMPTION for the caller (sweep unit): the friction
-   entries as the call left them and the value of one watched entry pi[ghost_n] as the call saw it.
-   Pure bookkeeping on ghost state, no constraint on real state. */
-extern int ghost_n;
-extern Real g_post[8][3], g_seen[8];
-#define GHOST_ASSIGNS(a) ; g_post[(a)->ghost_id][0], g_post[(a)->ghost_id][1], g_post[(a)->ghost_id][2], g_seen[(a)->ghost_id]
-#define GHOST_ENSURES(a) __CPROVER_ensures(same_bits(g_post[(a)->ghost_id][0], P_NEW(a,0)) && same_bits(g_post[(a)->ghost_id][1], P_NEW(a,1)) && same_bits(g_post[(a)->ghost_id][2], P_NEW(a,2)) && same_bits(g_seen[(a)->ghost_id], __CPROVER_old(pi->d[ghost_n])))
-#define GHOST_REQUIRES(a) __CPROVER_requires(0 <= (a)->ghost_id && (a)->ghost_id < 8 && 0 <= ghost_n && ghost_n < pi->n)
-#else
-#define GHOST_ASSIGNS(a)
-#define GHOST_ENSURES(a)
-#define GHOST_REQUIRES(a)
-#endif
+#define GHOST_ASSIGNS(a) ; LOG_ASSIGNS
+#define GHOST_ENSURES(a) CONE_LOG_POST(a)
+#define GHOST_REQUIRES(a) __CPROVER_requires(LOG_CLEAR)
+/* value preconditions shared with the call-site checks of the sweep unit */
+#define BV_PRE(maxLen, IV, pi)    (WF_IDX(IV, g_m) && SMALL(IV) && DISTINCT(IV) && (maxLen) >= 0 && ENTRIES_OK(IV))
+#define BF_PRE(mu, IN, IF, pi)    (WF_IDX(IN, g_m) && WF_IDX(IF, g_m) && SMALL(IN) && SMALL(IF) && DISTINCT(IF) && DISJ(IN, IF) \
+                                   && 0 <= (mu) && (mu) <= BIG && ENTRIES_OK(IF) && ENTRY_BIG(IN,0) && ENTRY_BIG(IN,1) && ENTRY_BIG(IN,2))
 
-enum FricCond boundVector(Real maxLen, const struct IdxArray* IV, struct Vec* pi)
-__CPROVER_requires(__CPROVER_is_fresh(IV, sizeof(*IV)) && __CPROVER_is_fresh(pi, sizeof(*pi)))
-__CPROVER_requires(0 < pi->n && pi->n <= VEC_MAX && WF_VEC(pi, pi->n) && WF_IDX(IV, pi->n) && SMALL(IV) && DISTINCT(IV))
-__CPROVER_requires(maxLen >= 0 && ENTRIES_OK(IV) && 0 <= ghost_k && ghost_k < pi->n && LOG_CLEAR)
+enum FricCond boundVector(Real maxLen, const struct IdxArray* IV, Real* pi)
+__CPROVER_requires(__CPROVER_is_fresh(IV, sizeof(*IV)))
+__CPROVER_requires(WF_M && WF_VEC(pi) && BV_PRE(maxLen, IV, pi) && 0 <= ghost_k && ghost_k < g_m)
 GHOST_REQUIRES(IV)
-__CPROVER_assigns(IV->n > 0: pi->d[IV->d[0]]; IV->n > 1: pi->d[IV->d[1]]; IV->n > 2: pi->d[IV->d[2]]; LOG_ASSIGNS GHOST_ASSIGNS(IV))
+__CPROVER_assigns(IV->n > 0: pi[IV->d[0]]; IV->n > 1: pi[IV->d[1]]; IV->n > 2: pi[IV->d[2]] GHOST_ASSIGNS(IV))
 CONE_POST(IV)
 GHOST_ENSURES(IV)
 ;
 
-enum FricCond boundFriction(Real mu, const struct IdxArray* IN, const struct IdxArray* IF, struct Vec* pi)
-__CPROVER_requires(__CPROVER_is_fresh(IN, sizeof(*IN)) && __CPROVER_is_fresh(IF, sizeof(*IF)) && __CPROVER_is_fresh(pi, sizeof(*pi)))
-__CPROVER_requires(0 < pi->n && pi->n <= VEC_MAX && WF_VEC(pi, pi->n) && WF_IDX(IN, pi->n) && WF_IDX(IF, pi->n) && SMALL(IN) && SMALL(IF) && DISTINCT(IF))
-/* normal and friction index sets are disjoint (ConstraintLtdFrictionRT: m_Nk from IU, m_Fk from IF) */
-__CPROVER_requires(DISJ(IN, IF))
-/* magnitudes whose squares do not overflow: otherwise mu*mu*N2 can be inf*0 = NaN */
-__CPROVER_requires(0 <= mu && mu <= BIG && ENTRIES_OK(IF) && 0 <= ghost_k && ghost_k < pi->n && LOG_CLEAR)
-__CPROVER_requires(ENTRY_BIG(IN,0) && ENTRY_BIG(IN,1) && ENTRY_BIG(IN,2))
+enum FricCond boundFriction(Real mu, const struct IdxArray* IN, const struct IdxArray* IF, Real* pi)
+__CPROVER_requires(__CPROVER_is_fresh(IN, sizeof(*IN)) && __CPROVER_is_fresh(IF, sizeof(*IF)))
+/* BF_PRE: normal and friction index sets are disjoint (ConstraintLtdFrictionRT: m_Nk from IU, m_Fk from IF);
+   magnitudes whose squares do not overflow: otherwise mu*mu*N2 can be inf*0 = NaN */
+__CPROVER_requires(WF_M && WF_VEC(pi) && BF_PRE(mu, IN, IF, pi) && 0 <= ghost_k && ghost_k < g_m)
 GHOST_REQUIRES(IF)
-__CPROVER_assigns(IF->n > 0: pi->d[IF->d[0]]; IF->n > 1: pi->d[IF->d[1]]; IF->n > 2: pi->d[IF->d[2]]; LOG_ASSIGNS GHOST_ASSIGNS(IF))
+__CPROVER_assigns(IF->n > 0: pi[IF->d[0]]; IF->n > 1: pi[IF->d[1]]; IF->n > 2: pi[IF->d[2]] GHOST_ASSIGNS(IF))
 CONE_POST(IF)
 GHOST_ENSURES(IF)
 ;
 
 /* ---- doUpdate / doUpdates: frame = only the updated row(s) of pi ------------------------------ */
-Real doUpdate(MultiplierIndex row, const struct Mat* A, const struct Vec* D, const struct Vec* rhs, Real SOR, Real rowSum, struct Vec* pi)
-__CPROVER_requires(__CPROVER_is_fresh(A, sizeof(*A)) && __CPROVER_is_fresh(D, sizeof(*D)) && __CPROVER_is_fresh(rhs, sizeof(*rhs)) && __CPROVER_is_fresh(pi, sizeof(*pi)))
-__CPROVER_requires(0 < A->m && A->m <= VEC_MAX && WF_VEC(pi, A->m) && WF_VEC(rhs, A->m) && (D->n == 0 || D->n == A->m) && __CPROVER_is_fresh(D->d, sizeof(Real) * (unsigned long)A->m))
-__CPROVER_requires(0 <= row && row < A->m && 0 <= ghost_k && ghost_k < A->m)
-__CPROVER_assigns(pi->d[row])
-__CPROVER_ensures(ghost_k != row ==> SAME(pi->d[ghost_k], __CPROVER_old(pi->d[ghost_k])))
-/* returned squared error is the square of rhs[row]-rowSum, never negative */
-__CPROVER_ensures(NOTNAN(rhs->d[row] - rowSum) ==> __CPROVER_return_value >= 0)
+Real doUpdate(MultiplierIndex row, const struct Mat* A, const Real* D, int D_n, const Real* rhs, Real SOR, Real rowSum, Real* pi)
+__CPROVER_requires(__CPROVER_is_fresh(A, sizeof(*A)) && WF_M && A->m == g_m && WF_VEC(pi) && WF_VEC(rhs) && WF_VEC(D) && (D_n == 0 || D_n == g_m))
+__CPROVER_requires(0 <= row && row < g_m && 0 <= ghost_k && ghost_k < g_m)
+__CPROVER_assigns(pi[row])
+__CPROVER_ensures(ghost_k != row ==> SAME(pi[ghost_k], __CPROVER_old(pi[ghost_k])))
+/* returned squared error is a square: never negative */
+__CPROVER_ensures(NOTNAN(rhs[row] - rowSum) ==> __CPROVER_return_value >= 0)
 ;
 
 Real RealArray_get(const struct RealArray* a, unsigned i) __CPROVER_requires(1) __CPROVER_assigns() __CPROVER_ensures(1);
-Real doUpdates(const struct IdxArray* rows, const struct Mat* A, const struct Vec* D, const struct Vec* rhs, Real SOR, const struct RealArray* rowSums, struct Vec* pi)
-__CPROVER_requires(__CPROVER_is_fresh(rows, sizeof(*rows)) && __CPROVER_is_fresh(A, sizeof(*A)) && __CPROVER_is_fresh(D, sizeof(*D)) && __CPROVER_is_fresh(rhs, sizeof(*rhs)) && __CPROVER_is_fresh(pi, sizeof(*pi)) && __CPROVER_is_fresh(rowSums, sizeof(*rowSums)))
-__CPROVER_requires(0 < A->m && A->m <= VEC_MAX && WF_VEC(pi, A->m) && WF_VEC(rhs, A->m) && (D->n == 0 || D->n == A->m) && __CPROVER_is_fresh(D->d, sizeof(Real) * (unsigned long)A->m))
-__CPROVER_requires(WF_IDX(rows, A->m) && 0 <= ghost_k && ghost_k < A->m)
-__CPROVER_assigns(rows->n > 0: pi->d[rows->d[0]]; rows->n > 1: pi->d[rows->d[1]]; rows->n > 2: pi->d[rows->d[2]]; rows->n > 3: pi->d[rows->d[3]]; rows->n > 4: pi->d[rows->d[4]]; rows->n > 5: pi->d[rows->d[5]])
-__CPROVER_ensures(!IN_IDX6(rows, ghost_k) ==> SAME(pi->d[ghost_k], __CPROVER_old(pi->d[ghost_k])))
+Real doUpdates(const struct IdxArray* rows, const struct Mat* A, const Real* D, int D_n, const Real* rhs, Real SOR, const struct RealArray* rowSums, Real* pi)
+__CPROVER_requires(__CPROVER_is_fresh(rows, sizeof(*rows)) && __CPROVER_is_fresh(A, sizeof(*A)) && __CPROVER_is_fresh(rowSums, sizeof(*rowSums)))
+__CPROVER_requires(WF_M && A->m == g_m && WF_VEC(pi) && WF_VEC(rhs) && WF_VEC(D) && (D_n == 0 || D_n == g_m))
+__CPROVER_requires(WF_IDX(rows, g_m) && 0 <= ghost_k && ghost_k < g_m)
+__CPROVER_assigns(rows->n > 0: pi[rows->d[0]]; rows->n > 1: pi[rows->d[1]]; rows->n > 2: pi[rows->d[2]]; rows->n > 3: pi[rows->d[3]]; rows->n > 4: pi[rows->d[4]]; rows->n > 5: pi[rows->d[5]])
+__CPROVER_ensures(!IN_IDX6(rows, ghost_k) ==> SAME(pi[ghost_k], __CPROVER_old(pi[ghost_k])))
 ;
